@@ -11,4 +11,6 @@ func registerAll() {
 	core.Register("C09", execC09)
 	core.Register("C13", execC13)
 	core.Register("C14", execC14)
+	core.Register("C06", execC06)
+	core.Register("C07", execC07)
 }
